@@ -132,6 +132,13 @@ pub fn c01(tier: &str) -> i32 {
         pre3.push(Op::Auto(Stmt::Insert { table: "t".into(), rows: vec![vec![i(20 + n as i128), tx(&big(*c))]] }));
     }
     searches.push(mk("C01", "C01", "seed: log block zero about 90% full", Cfg::default(), pre3, committed_alphabet(), if quick { 2 } else { 4 }, if quick { 3_000 } else { 200_000 }, false));
+    // sessions that live across checkpoints: the log (and its sequence numbers) restarts under an open transaction
+    {
+        let mut pre6 = prefix_basic();
+        pre6.push(Op::Flush);
+        let alpha6 = vec![Op::Begin(1), Op::In(1, ins(5, "e")), Op::In(1, ins(6, "f")), Op::Commit(1), Op::Flush, Op::Auto(ins(2, "b")), Op::Begin(2), Op::In(2, ins(8, "h")), Op::Commit(2)];
+        searches.push(mk("C01", "C01", "seed: freshly checkpointed database; sessions that begin before and commit after a checkpoint, other commits in between", Cfg::default(), pre6, alpha6, if quick { 4 } else { 6 }, if quick { 20_000 } else { 300_000 }, false));
+    }
     let (pre5, alpha5) = straddling();
     searches.push(mk("C01", "C01", "seed: log block zero about 70% full; transactions of several multi-page rows whose records straddle the block boundary", Cfg::default(), pre5, alpha5, if quick { 4 } else { 6 }, if quick { 20_000 } else { 300_000 }, false));
     // table with a unique index on k: the recovered rows must also be found through the index
